@@ -13,13 +13,15 @@ use wirm::module_builder::AddLocal;
 use wirm::opcode::Inject;
 use wirm::DataType;
 
-fn gen_base(c: &mut Case, reserve_last: bool) -> Option<(crate::gen::GModule, Vec<u8>)> {
+fn gen_base_n(c: &mut Case, reserve_last: bool, need_funcs: bool) -> Option<(crate::gen::GModule, Vec<u8>)> {
     let mut profile = Profile::from_tape(&mut c.t);
     if c.t.chance(1, 2) {
         profile.gc = true;
     }
     let mut cfg = steer_cfg(c, Kind::Static, profile);
     cfg.reserve_last = reserve_last;
+    // C12 and C14 need a local function; C13 and C28 also run on modules without code
+    cfg.min_funcs = need_funcs as usize;
     let m = gen_module(&mut c.t, &cfg);
     let bytes = m.encode();
     if let Err(e) = dm::validate(&bytes) {
@@ -47,6 +49,10 @@ fn diff_fail(a: &dm::Flat, b: &dm::Flat, what: &str) -> Option<Outcome> {
     ))
 }
 
+fn gen_base(c: &mut Case, reserve_last: bool) -> Option<(crate::gen::GModule, Vec<u8>)> {
+    gen_base_n(c, reserve_last, false)
+}
+
 // ------------------------------------------------------------------------------------ C12
 pub struct BuiltFunctions;
 
@@ -70,7 +76,7 @@ impl Driver for BuiltFunctions {
         vec!["wasmparser validator/decoder; the expected module is the generator's own encoding of the same function"]
     }
     fn run(&self, c: &mut Case) -> Outcome {
-        let Some((gm, full)) = gen_base(c, true) else { return Outcome::Discard("generator produced an invalid module") };
+        let Some((gm, full)) = gen_base_n(c, true, true) else { return Outcome::Discard("generator produced an invalid module") };
         if gm.funcs.is_empty() {
             return Outcome::Discard("no local function to rebuild");
         }
@@ -423,7 +429,7 @@ impl Driver for AddedLocals {
         }
     }
     fn run(&self, c: &mut Case) -> Outcome {
-        let Some((gm, bytes)) = gen_base(c, false) else { return Outcome::Discard("generator produced an invalid module") };
+        let Some((gm, bytes)) = gen_base_n(c, false, true) else { return Outcome::Discard("generator produced an invalid module") };
         if gm.funcs.is_empty() {
             return Outcome::Discard("no local function");
         }
